@@ -83,8 +83,8 @@ Parts(g) ==
     [] g.type = "MultiPoint"      -> [i \in DOMAIN c |-> Part(0, <<<<c[i]>>>>)]
     [] g.type = "LineString"      -> <<Part(1, <<c>>)>>
     [] g.type = "MultiLineString" -> [i \in DOMAIN c |-> Part(1, <<c[i]>>)]
-    [] g.type = "Polygon"         -> <<Part(2, c)>>
-    [] g.type = "MultiPolygon"    -> [i \in DOMAIN c |-> Part(2, c[i])]
+    [] g.type = "Polygon"         -> <<Part(2, CloseRings(c))>>                      \* rings may be written unclosed
+    [] g.type = "MultiPolygon"    -> [i \in DOMAIN c |-> Part(2, CloseRings(c[i]))]
 BoxLike(g) == g.type \in {"BoundingBox", "TimeInterval"}
 Areal(g)   == g.type \in {"BoundingBox", "TimeInterval", "Polygon", "MultiPolygon"}
 \* <<start, low, end, high>> of a box-like geometry
